@@ -144,6 +144,9 @@ def inHull (rs : List Rat) (x : Rat) : Bool := rs.any (fun r => decide (r ≤ x)
 /-- SPEC: arithmetic mean -/
 def meanOf (rs : List Rat) : Rat := rs.sum / (rs.length : Rat)
 
+/-- SPEC: sum of squared deviations from the arithmetic mean -/
+def sqDev (rs : List Rat) : Rat := (rs.map (fun r => (r - meanOf rs) * (r - meanOf rs))).sum
+
 /-! ### `random_argmax`, `weighted` (random.rs) -/
 
 /-- fold state of `Iterator::max_by` inside `random_argmax`: current best `(idx, key)` and the closure's `count` -/
